@@ -772,11 +772,48 @@ func (E *Engine) external(fr *Frame, st *State, fn *ssa.Function, name string, a
 	} else if o := fn.Origin(); o != nil && o.Object() != nil {
 		pkg = o.Object().Pkg()
 	}
+	if pkg != nil && stdMutatesSlice(pkg.Path(), fn) {
+		// sort.* and the in-place functions of the standard slices package rearrange the elements of the
+		// slice they are handed: every array of that element type is forgotten (which elements, where)
+		ws := newWriteSet()
+		ok := false
+		if ci, isCall := instr.(ssa.CallInstruction); isCall && len(ci.Common().Args) > 0 {
+			if stp := sliceCore(E.subst(ci.Common().Args[0].Type(), fr.tenv)); stp != nil {
+				k, srt := E.arrKey(stp.Elem(), fr.tenv)
+				E.regKey(ws, k, srt).any = true
+				ok = true
+			}
+		}
+		if !ok {
+			return E.unknownCall(fr, st, "external "+name, res, instr, args)
+		}
+		E.note("calls into " + pkg.Path() + " that sort or edit a slice in place forget the contents of every array of that element type; results are unconstrained")
+		E.havocKeys(st, ws, func(ssa.Value) (*Term, bool) { return nil, false })
+		return E.freshResults(fr, st, "ret$"+lastName(fn.Name()), res)
+	}
 	if E.isNoEffect(name, pkg) {
 		E.note("calls into " + pkg.Path() + " have no effect on verified state and return a function of their arguments (E1)")
 		return E.pureResult(fr, st, name, res, args, instr)
 	}
 	return E.unknownCall(fr, st, "external "+name, res, instr, args)
+}
+
+// stdMutatesSlice: functions of sort and of the standard slices package that write the slice they are given.
+func stdMutatesSlice(pkgPath string, fn *ssa.Function) bool {
+	n := originOf(fn).Name()
+	switch pkgPath {
+	case "sort":
+		switch n {
+		case "Sort", "Stable", "Slice", "SliceStable", "Strings", "Ints", "Float64s":
+			return true
+		}
+	case "slices":
+		switch n {
+		case "Sort", "SortFunc", "SortStableFunc", "Reverse", "Compact", "CompactFunc", "Delete", "DeleteFunc", "Insert", "Replace":
+			return true
+		}
+	}
+	return false
 }
 
 // protoGetter models generated protobuf getters: nil receiver => zero value, else the field.
@@ -911,6 +948,17 @@ func (E *Engine) summarise(hf *Frame, st *State, body *ssa.Function, tenv TEnv, 
 	} else if len(body.Blocks) > 0 {
 		ws := E.writes(body, tenv)
 		E.havocKeys(st, ws, E.paramResolver(body, args))
+	} else if org := originOf(body); org.Pkg != nil && stdMutatesSlice(org.Pkg.Pkg.Path(), body) && body.Signature.Params().Len() > 0 {
+		// sort.* / in-place slices.*: the elements of every array of that element type may have moved; the
+		// trusted contract says what is known afterwards
+		if stp := sliceCore(E.subst(body.Signature.Params().At(0).Type(), tenv)); stp != nil {
+			ws := newWriteSet()
+			k, srt := E.arrKey(stp.Elem(), tenv)
+			E.regKey(ws, k, srt).any = true
+			E.havocKeys(st, ws, func(ssa.Value) (*Term, bool) { return nil, false })
+		} else {
+			E.havocAll(st)
+		}
 	} else {
 		// external target with a trusted contract: the contract's frame is what it writes; by default nothing
 	}
@@ -1524,4 +1572,32 @@ func (E *Engine) copyBuiltin(fr *Frame, st *State, cc *ssa.CallCommon, args []Va
 			tb.Eq(tb.Select(na, i), tb.Select(oldDst, i))))))
 	E.set(st, ak, tb.Ite(tb.Eq(n, tb.Int(0)), ah, tb.Store(ah, E.slcArr(dst), na)))
 	return n
+}
+
+// sliceCore: the slice type behind t - t's underlying type, or for a type parameter constrained by ~[]E
+// the slice type of that constraint.
+func sliceCore(t types.Type) *types.Slice {
+	t = types.Unalias(t)
+	if st, ok := t.Underlying().(*types.Slice); ok {
+		return st
+	}
+	if tp, ok := t.(*types.TypeParam); ok {
+		if iface, ok := tp.Constraint().Underlying().(*types.Interface); ok {
+			for i := 0; i < iface.NumEmbeddeds(); i++ {
+				switch e := types.Unalias(iface.EmbeddedType(i)).(type) {
+				case *types.Union:
+					for j := 0; j < e.Len(); j++ {
+						if st, ok := e.Term(j).Type().Underlying().(*types.Slice); ok {
+							return st
+						}
+					}
+				default:
+					if st, ok := e.Underlying().(*types.Slice); ok {
+						return st
+					}
+				}
+			}
+		}
+	}
+	return nil
 }
